@@ -28,7 +28,7 @@ class Ctx(object):
         self.only = only
         h = hashlib.sha256(("%s|%s|%s|%d|%d" % (prop, part, cfg, seed, shard)).encode()).digest()
         self.rng = random.Random(int.from_bytes(h[:8], "big"))
-        self.tag = "%s.%s.%s.%d" % (prop, part, cfg, shard)
+        self.tag = ("%s.%s.%s.%d" % (prop, part, cfg, shard)).replace(":", "_")
         self.jfd = os.open(os.path.join(outdir, self.tag + ".journal"),
                            os.O_WRONLY | os.O_CREAT | os.O_TRUNC, 0o644)
         self.evaluations = 0
